@@ -92,21 +92,49 @@ class Run:
 
     # ---- solver
     def solve(self, constraints, label):
-        """returns ('unsat', None) | ('sat', model) ; unknown/timeouts raise Inconclusive"""
-        s = z3.Solver(); s.set('timeout', self.solver_timeout_ms)
-        s.add(*constraints)
-        t0 = time.time(); r = s.check(); dt = time.time() - t0
+        """returns ('unsat', None) | ('sat', model); unknown/timeouts raise Inconclusive.
+        Staged: z3 (short budget) -> cvc5 with integer encoding of bit-vector arithmetic (trusted for `unsat` only) -> z3 (full budget)."""
+        t0 = time.time()
+        rec = {'label': label}
+        r, s = self._z3(constraints, min(8000, self.solver_timeout_ms))
+        if r == z3.unknown:
+            if self._cvc5_unsat(constraints, label, ['--solve-bv-as-int=sum'], 30000):
+                rec.update(result='unsat', decided_by='cvc5 --solve-bv-as-int=sum', s=round(time.time() - t0, 3))
+                self.cur.solver_s += time.time() - t0; self.cur.queries.append(rec)
+                return ('unsat', None)
+            r, s = self._z3(constraints, self.solver_timeout_ms)
+        dt = time.time() - t0
         self.cur.solver_s += dt
-        rec = {'label': label, 'result': str(r), 's': round(dt, 3)}
+        rec.update(result=str(r), s=round(dt, 3))
         if self.tier == 'thorough' or os.environ.get('VERIF_CROSSCHECK'):
-            rec['cvc5'] = self.crosscheck(s, str(r))
+            rec['cvc5'] = self.crosscheck(constraints, str(r))
         self.cur.queries.append(rec)
         if r == z3.unknown:
             raise E.Inconclusive(f'solver unknown on {label}: {s.reason_unknown()}')
         return (str(r), s.model() if r == z3.sat else None)
 
-    def crosscheck(self, solver, expect):
-        smt = '(set-logic ALL)\n' + solver.sexpr() + '\n(check-sat)\n'
+    def _z3(self, constraints, timeout_ms):
+        s = z3.Solver(); s.set('timeout', int(timeout_ms)); s.add(*constraints)
+        return s.check(), s
+
+    def _cvc5_unsat(self, constraints, label, args, tlimit_ms):
+        os.makedirs(os.path.join(VERIF, '.cache', 'unknown'), exist_ok=True)
+        qf = os.path.join(VERIF, '.cache', 'unknown', hashlib.sha1(label.encode()).hexdigest()[:10] + '.smt2')
+        open(qf, 'w').write(smt2_of(constraints))
+        try:
+            pr = subprocess.run(['cvc5', '--lang', 'smt2', f'--tlimit={tlimit_ms}'] + args + [qf], capture_output=True, text=True, timeout=tlimit_ms / 1000 + 30)
+            out = pr.stdout.strip().split('\n')[-1] if pr.stdout.strip() else ''
+            return out == 'unsat' and '(error' not in pr.stdout and '(error' not in pr.stderr
+        except Exception:       # noqa
+            return False
+        finally:
+            try:
+                os.remove(qf)
+            except OSError:
+                pass
+
+    def crosscheck(self, constraints, expect):
+        smt = smt2_of(constraints)
         try:
             p = subprocess.run(['cvc5', '--lang', 'smt2', '--tlimit=60000'], input=smt, capture_output=True, text=True, timeout=90)
             out = p.stdout.strip().split('\n')[-1] if p.stdout.strip() else 'error'
@@ -230,6 +258,12 @@ class Run:
         }
         os.makedirs(os.path.join(VERIF, 'evidence'), exist_ok=True)
         json.dump(ev, open(os.path.join(VERIF, 'evidence', self.pid + '.json'), 'w'), indent=1, default=str)
+
+
+def smt2_of(constraints):
+    s2 = z3.Solver(); s2.add(*constraints)
+    body = '\n'.join(l for l in s2.sexpr().split('\n') if not l.startswith(('(model-add', '(model-del')))
+    return '(set-logic ALL)\n' + body + '\n(check-sat)\n'
 
 
 def model_json(model):
